@@ -245,13 +245,15 @@ func (p *ServerProcessor) OnComplete(parser *Parser) {
 		hasClose := false
 		keepAlive := false
 	CONNECTION_VALUES:
-		for _, v := range request.Header["Connection"] {
-			switch strings.ToLower(strings.Trim(v, " ")) {
-			case "close":
-				hasClose = true
-				break CONNECTION_VALUES
-			case "keep-alive":
-				keepAlive = true
+		for _, vv := range request.Header["Connection"] {
+			for _, v := range strings.Split(vv, ",") {
+				switch strings.ToLower(strings.Trim(v, " ")) {
+				case "close":
+					hasClose = true
+					break CONNECTION_VALUES
+				case "keep-alive":
+					keepAlive = true
+				}
 			}
 		}
 		if request.ProtoMajor == 1 && request.ProtoMinor == 0 {
